@@ -2,7 +2,11 @@
 
   proof stage   Lean: SoxrModel/Properties/C12.lean - the MODEL resampler (pipeline of ring-linear kernels) satisfies
                 superposition, homogeneity, gain_once (the hand-over of `multiplier` in _soxr_init), dc_gain (unity gain <=>
-                rows sum to 1) and shift covariance at the implementation period, exactly, for all signals + axiom audit
+                rows sum to 1) and shift covariance at the implementation period, exactly, for all signals + axiom audit;
+                SoxrModel/Properties/C12Engine.lean - the ENGINE model (FIFOs, preloads, block-clocked dft stages, any schedule,
+                arbitrary kernels): superposition_runs, homogeneity_runs, shift_covariance_runs
+  tie (engine)  checks/c12_engine.py: `cr.period` (planShift, the theorem's hypothesis) on every exported plan of a sweep; the real
+                engine run on x and on (d_in other frames ++ x) must agree BIT FOR BIT beyond the horizon, d_out frames apart
   tie           every exported plan: some designed stage exists whenever a half-band stage does (hypothesis of
                 `gain_always_carried`); implementation period computed by the mirror of `Soxr.Signal.implPeriod`
   measurement   on the REAL code, compared within 2^(1-bits) of full scale with the measured margin recorded:
@@ -19,6 +23,7 @@ from fractions import Fraction
 import numpy as np
 from vlib import common
 from checks import _signal as S
+from checks import c12_engine
 
 LEVEL = "proof"
 COVER_RULE = 'covering set (checks/_signal.py cover): a seeded pool of candidate configurations - %s - is planned by the REAL library; every candidate is labelled with its plan class (per stage: half-band / dft stage with F-domain or time-domain rate change, decimation grid aligned to block_len or not / poly-phase order) and its knob; one member of EVERY (plan class, knob) pair is measured, cheapest implementation periods first, members rotating with the seed; the run reports a violation when a required planner path or engine (REQUIRED_CLASSES, REQUIRED_ORDERS, cr32 / cr32s / cr64 / cr64s) is not hit. '
@@ -242,12 +247,15 @@ CLAUSES = [  # (key in the job result, what, needs-rational)
 
 
 def run(ctx):
-    broken = common.proof_stage(ctx, ["SoxrModel.Properties.C12", "SoxrModel.Properties.C12Engine"], ["C12", "C12Engine"], exes=(), gens=())
+    broken = common.proof_stage(ctx, ["SoxrModel.Properties.C12", "SoxrModel.Properties.C12Engine"], ["C12", "C12Engine"], exes=("soxrmodel",), gens=())
     S.harness()
     S.set_active("C12")
     rng = ctx.rng
     quick = ctx.quick
     worst, sigs = {}, set()
+
+    # ---------------- engine half: shift covariance of the engine model (Cr/Shift.lean) tied to the real engine bit for bit
+    n_shift = c12_engine.section(ctx, common.build_harness("crtrace", ["cr/trace.c"], "rel"))
 
     # ---------------- tie: hypothesis of gain_always_carried on exported plans (plan export only; no signal)
     pool = S.all_rational() + [S.mkcfg(ir, orr, rec, qf, simd=s) for (ir, orr) in S.RATIOS_IRRATIONAL for (rec, qf) in S.RECIPES for s in (0, 1)]
